@@ -563,8 +563,9 @@ def gen_runs(rng, n, mode):
                 # colliding names planted inside the fresh directory between run_mode and the first compute
                 cand = [f"detector_{bk}_{r}.{f}" for bk, fmts in save for f in fmts for r in range(len(a) * len(b))]
                 extra["plant"] = sorted(set(rng.sample(cand, min(len(cand), rng.choice([1, 2])))))
-        if any(bk == "charge" for bk, _ in save) or rng.random() < 0.3:
-            extra["particles"] = rng.random() < 0.6  # the charge bucket is (partly) held as charge clusters
+        if any(bk == "charge" for bk, _ in save):
+            # the charge bucket is (partly) held as charge clusters (costly: every read of the bucket re-bins the clusters)
+            extra["particles"] = rng.random() < (0.5 if mode != "sequential" else 0.25)
         case = {"stream": f"run-{mode}", "id": i, "mode": mode, "save": save, **extra, "a": a, "b": b,
                 "readouts": rng.choice([1, 1, 2]), "prefix": prefix,
                 "starts": rng.choice([1, 1, 2, 3]) if mode != "parallel" else (1 if extra.get("plant") else rng.choice([1, 2])),
@@ -582,7 +583,7 @@ def gen_deprecated(rng, n):
         save = [[bk, rng.sample(["npy", "fits", "txt"], rng.choice([1, 2]))] for bk in rng.sample(BUCKETS, nb)]
         cases.append({"stream": "run-deprecated", "id": i, "mode": "deprecated-exposure", "save": save, "a": [rng.randrange(0, 4)],
                       "b": [rng.randrange(0, 8)], "readouts": nread, "prefix": rng.choice(["", "foo_"]), "starts": 1,
-                      "count_scale": 100.0, "particles": rng.random() < 0.3, "pre": gen_pre(rng, [""])})
+                      "count_scale": 100.0, "particles": nread <= 3 and any(bk == "charge" for bk, _ in save), "pre": gen_pre(rng, [""])})
     return cases
 
 
@@ -633,7 +634,9 @@ def statement_deprecated(case, impl):
 
 
 def gen_plans(rng, n):
-    """one mode object started 2-3 times in one process"""
+    """the deprecated pyxel.exposure_mode with 3-23 readouts (one automatically numbered save per readout, npy / fits / txt); "
+               "the charge bucket held partly as charge clusters in 60 % of the runs that save it; "
+               "one mode object started 2-3 times in one process"""
     cases = []
     for i in range(n):
         mode = ["exposure", "parallel", "sequential", "parallel"][i % 4]
@@ -670,6 +673,9 @@ def directed_runs():
     out.append({"stream": "run-parallel", "id": "planted-collision", "mode": "parallel", "save": [["image", ["fits", "npy"]], ["pixel", ["npy"]]],
                 "a": [1, 2], "b": [3], "readouts": 1, "prefix": "", "starts": 1, "pre": [], "computes": 2,
                 "plant": ["detector_image_0.fits", "detector_pixel_1.npy"]})
+    for mode in ("exposure", "sequential", "parallel"):
+        out.append({"stream": f"run-{mode}", "id": f"charge-as-clusters-{mode}", "mode": mode, "save": [["charge", ["npy", "fits"]], ["pixel", ["npy"]]],
+                    "a": [1] if mode == "exposure" else [1, 2], "b": [3], "readouts": 1, "prefix": "", "starts": 1, "pre": [], "particles": True})
     two = [[["image", ["npy"]]], [["pixel", ["npy"]], ["image", ["fits"]]]]
     for mode in ("exposure", "sequential", "parallel"):
         for via in ("attr", "override"):
@@ -815,6 +821,8 @@ def body(ck: common.Check):
     for c in cases:
         if c["stream"].startswith("dirs"):
             reqs.append(req_dirs(c, sequential=(c["stream"] == "dirs-sequential")))
+        elif c["stream"] == "run-deprecated":
+            reqs.append({"op": "autonames", "combos": [[b, f] for b, fmts in c["save"] for f in fmts], "saves": c["readouts"]})
         else:
             reqs.append(req_names(c))
     for n, c in enumerate(cases):  # one more model answer per further start of a plan (each start has its own save list)
@@ -849,6 +857,18 @@ def body(ck: common.Check):
                 if sorted(impl["listing"]) != sorted(ans["fs"]):
                     ck.disagreement(s, case, sorted(impl["listing"]), sorted(ans["fs"]))
             else:
+                if s == "run-deprecated":
+                    ck.case(case, nontrivial=True, stream=s)
+                    ck.count(f"run-deprecated:readouts={case['readouts']}")
+                    ck.count("run-deprecated:outcome=" + (impl["runs"][0].get("error") or "ok"))
+                    mine = sorted(impl["runs"][0].get("present", []))
+                    model = sorted(ans["model"]["present"])
+                    if mine != model:
+                        ck.disagreement(s, case, mine, model)
+                    if why is not None:
+                        ck.violation("C19:deprecated-exposure:automatic-numbering" if ("missing" in why or "does not hold" in why or "failed" in why)
+                                     else violation_key({**case, "mode": "deprecated-exposure"}, why), why, {"case": case, "impl": impl})
+                    continue
                 nruns = 1 if case["mode"] == "exposure" else len(case["a"]) * len(case["b"])
                 ncombo = sum(len(f) for _, f in case["save"])
                 ck.case(case, nontrivial=nruns * ncombo >= 2 or case["starts"] >= 2, stream=s)
@@ -861,6 +881,8 @@ def body(ck: common.Check):
                 for _, fmts in case["save"]:
                     for f in fmts:
                         ck.count(f"format={f}")
+                if case.get("particles") and any(bk == "charge" for bk, _ in case["save"]):
+                    ck.count(f"{s}:charge-bucket-held-as-clusters")
                 if case["mode"] == "parallel":
                     ck.count(f"run-parallel:computes={case.get('computes', 1)}:planted={len(case.get('plant', []))}")
                 if "plan" in case:
